@@ -350,7 +350,49 @@ def edge_path_pairs(run, ct, rng, count):
                 break
 
 
-def object_histories(run, ct, rng, count):
+def dispatch_memo(run, ct, rng, count):
+    """what `optimize` MEANS must not be remembered per container type: explicit linear paths and explicit edge paths (both
+    tuples, or both lists) asked one after the other in one process, in both orders; each answer is compared with the
+    stateless converters (the linear path itself / path_basic.edge_path_to_linear)"""
+    from cotengra import interface
+    from cotengra.pathfinders.path_basic import edge_path_to_linear
+    pool = [n for n in nets.net_pool(rng, 40, nmin=3, nmax=5, weird=False) if n.K >= 3 and nets.connected(n)]
+    for _ in range(count):
+        net = rng.choice(pool)
+        inp, out, size = net.c_inputs(), net.c_output(), net.c_sizes()
+        lin = tuple(tuple(p) for p in nets.ssa_to_linear(nets.tree_to_ssa(nets.rand_tree(rng, net.N), net.N, rng), net.N))
+        ep = tuple(net.lab[ix] for ix in rng.sample(range(1, net.K + 1), net.K))
+        want = {"linear": lin, "edge": tuple(map(tuple, edge_path_to_linear(ep, inp)))}
+        # start like a fresh process does (nothing remembered), then ask in a random order
+        getattr(interface, "_find_path_handlers", {}).clear()
+        interface._PATH_CACHE.clear()
+        cont = rng.choice([tuple, list])
+        seq = rng.choice([["linear", "edge"], ["edge", "linear"], ["linear", "edge", "linear"], ["edge", "linear", "edge"]])
+        for k, kind in enumerate(seq):
+            opt = cont(lin if kind == "linear" else ep)
+            entry = rng.choice(["find_path", "array_contract_path", "array_contract_path(cache=False)"])
+            d = {"net": net.to_json(), "sequence": seq, "step": k, "container": cont.__name__, "entry": entry,
+                 "linear": [list(p) for p in lin], "edge_path": list(ep)}
+            run.count()
+            run.nontrivial(("dispatch-memo", net.eq(), str(seq), k, cont.__name__, entry, str(lin), ep))
+            try:
+                if entry == "find_path":
+                    got = interface.find_path(inp, out, size, optimize=opt)
+                else:
+                    got = ct.array_contract_path(inp, out, size, optimize=opt, canonicalize=False, cache=entry == "array_contract_path")
+                got = tuple(tuple(p) for p in got)
+            except Exception as e:
+                run.violation(f"{entry} with an explicit {kind} path ({cont.__name__}) raised {core.exc_text(e)} as call {k + 1} of {seq} "
+                              f"eq={net.eq()}", d, tags={"dispatch-memo", "raised"})
+                break
+            if got != want[kind]:
+                run.violation(f"{entry}(optimize=<explicit {kind} path, {cont.__name__}>) as call {k + 1} of the sequence {seq} in one "
+                              f"process returned {got}, the stateless conversion gives {want[kind]} | eq={net.eq()}", d,
+                              tags={"dispatch-memo", "path"})
+                break
+
+
+def object_histories(run, ct, rng, count, kinds=("tree-mutated", "tree-mutated", "constants-mutated")):
     from cotengra import interface
     pool = [n for n in nets.net_pool(rng, 30, nmin=3, nmax=5, weird=False) if n.K >= 2 and nets.connected(n)][:10]
     for _ in range(count):
@@ -358,7 +400,7 @@ def object_histories(run, ct, rng, count):
         interface._PATH_CACHE.clear()
         interface._CONTRACT_EXPR_CACHE.clear()
         inp, out, size = net.c_inputs(), net.c_output(), net.c_sizes()
-        kind = rng.choice(["tree-mutated", "tree-mutated", "constants-mutated"])
+        kind = rng.choice(list(kinds))
         d = {"net": net.to_json(), "kind": kind}
         run.count()
         run.nontrivial(("object-history", kind, net.eq(), rng.random()))
@@ -403,6 +445,25 @@ def object_histories(run, ct, rng, count):
                             tree.restore_ind_(rng.choice(list(tree.sliced_inds)))
                         else:
                             tree.subtree_reconfigure_(subtree_size=3, maxiter=3, seed=rng.randrange(100))
+                elif kind == "tree-reused-with-other-options":
+                    # one tree object handed in as `optimize` for several calls whose options differ: the recipes the tree
+                    # memoised for an earlier call must not leak into a later one
+                    tree = ct.array_contract_tree(inp, out, size, optimize=rng.choice(["greedy", "optimal"]), canonicalize=False)
+                    OPTS = [{}, {"sort_contraction_indices": True}, {"prefer_einsum": True}, {"sort_contraction_indices": True, "prefer_einsum": True}]
+                    hist = []
+                    for step in range(3):
+                        # (first compiled without sorting, then with: the transition that re-derives every index order)
+                        kw = rng.choice(OPTS) if step == 2 else rng.choice(OPTS[1::2] if step else OPTS[0::2])
+                        hist.append(kw)
+                        arrays = arrays_for(net, rng)
+                        ref = nets.refeval(net, arrays)
+                        for nm, fn in (("array_contract", lambda: ct.array_contract(arrays, inp, out, optimize=tree, cache_expression=rng.random() < 0.5, **kw)),
+                                       ("array_contract_expression", lambda: ct.array_contract_expression(inp, out, size, optimize=tree, cache=rng.random() < 0.5, **kw)(*arrays))):
+                            g = value_of(fn())
+                            if g.shape != ref.shape or not np.allclose(g, ref, rtol=1e-12, atol=1e-12):
+                                run.violation(f"{nm} with optimize=<one tree object> called with the option history {hist} gives a wrong "
+                                              f"value at call {step + 1}: eq={net.eq()}", d, tags={"object-history", kind, "value"})
+                                raise StopIteration
                 else:
                     if net.N < 3:
                         continue
@@ -481,9 +542,11 @@ def run(run):
     # an explicit ContractionTree (or optimizer object) as `optimize`, changed in place between calls; constants changed in
     # place between two builds of an expression: the cached entry points must answer like the uncached ones
     object_histories(run, ct, rng, 12 if quick else 120)
+    object_histories(run, ct, rng, 15 if quick else 150, kinds=("tree-reused-with-other-options",))
     container_forms(run, ct, rng)
     nested_and_unhashable(run, ct, rng, 10 if quick else 100)
     edge_path_pairs(run, ct, rng, 12 if quick else 150)
+    dispatch_memo(run, ct, rng, 12 if quick else 150)
     # labels with colliding hashes, not canonicalised: every sequence of length 3 over the two calls
     cpool = collision_pool()
     for entry in ("array_contract", "array_contract_expression", "array_contract_path", "expression_with_constants"):
